@@ -393,6 +393,8 @@ class Parts:
             for bt in rng.sample(list(BonusType), rng.randint(0, 3)):
                 specs.append(rng.choice([BonusSpec(bonus_type=bt, grade=rng.randint(1, 7)),
                                          BonusSpec(bonus_type=bt, rank=rng.randint(0, 7))]))
+            if specs and rng.random() < 0.3:     # the same kind twice with another grade
+                specs.append(BonusSpec(bonus_type=specs[0].bonus_type, grade=rng.choice([g for g in range(1, 8) if g != specs[0].get_grade()])))
             star = rng.choice([rng.randint(0, 30), -1, 0, 40])
             if i % 2:
                 bp = PracticalGearBlueprint(meta=meta, spell_trace=mk_trace() if rng.random() < 0.6 else None,
